@@ -307,7 +307,7 @@ func c12Prop(rt *rapid.T, c *vlib.Case, t *testing.T, open map[string]bool) {
 	if err := veInstallConverters(d, cfg.converters); err != nil {
 		rt.Fatalf("converters: %v", err)
 	}
-	r := &vsRun{rt: rt, c: c, cfg: cfg, open: open, tr: vsGenTraffic(rt), kindsDelivered: map[string]bool{}, deliveredCaptures: map[int]bool{}}
+	r := &vsRun{rt: rt, c: c, cfg: cfg, open: open, tr: vsGenTraffic(rt), kindsDelivered: map[string]bool{}, lastDefs: map[string]string{}, deliveredCaptures: map[int]bool{}}
 	r.views[0], r.views[1] = &vsView{}, &vsView{}
 	c.Render(func() any { return map[string]any{"traffic": r.tr.brief(), "history": r.hist} })
 	ack := &c12Ack{ids: map[string]uint64{}, tags: map[string]c12AckTag{}, webhooks: map[string]bool{}}
